@@ -131,11 +131,14 @@ theorem ne_setSt (s : Sess) (v : St) : OutsExt NotWrite s (s.setSt v) := by
   · exact (OutsExt.emit s _ (by intro c b h; cases h)).trans (oe_withSt _ _)
   · exact oe_withSt s v
 
+theorem ne_abortPending (s : Sess) : OutsExt NotWrite s s.abortPending := OutsExt.of_same (by simp)
+
 theorem ne_connectTcp (s : Sess) : OutsExt NotWrite s s.connectTcp := by
   unfold connectTcp
   split
-  · exact ⟨[.connect s.conns.length], rfl, by intro o ho; simp at ho; subst ho; intro c b h; cases h⟩
-  · exact OutsExt.refl _ s
+  · exact ⟨[.connect s.abortPending.conns.length], by simp [Sess.emit, withConns],
+      by intro o ho; simp at ho; subst ho; intro c b h; cases h⟩
+  · exact ne_abortPending s
 
 theorem ne_manualStart (s : Sess) : OutsExt NotWrite s s.manualStart := by
   unfold manualStart
@@ -148,8 +151,8 @@ theorem ne_manualStart (s : Sess) : OutsExt NotWrite s s.manualStart := by
 theorem ne_manualStop (s : Sess) (hs : s.st ≠ .established) : OutsExt NotWrite s s.manualStop := by
   unfold manualStop
   rw [if_neg hs]
-  exact ((((((oe_withTm s _).trans (ne_closeConn _)).trans (oe_withRetryCounter _ _)).trans
-    (oe_withAllow _ _)).trans (ne_setSt _ _))).trans (OutsExt.emit _ _ (by intro c b h; cases h))
+  exact (((((((oe_withTm s _).trans (ne_closeConn _)).trans (oe_withRetryCounter _ _)).trans
+    (oe_withAllow _ _)).trans (ne_setSt _ _))).trans (ne_abortPending _)).trans (OutsExt.emit _ _ (by intro c b h; cases h))
 
 /-! ### the sending views on a session whose tracked connection is up -/
 
